@@ -387,7 +387,7 @@ func d3(w *World, r *Report, x *ExecCtx, fns []*ssa.Function) {
 					r.Undecided("D-3", tn+".Less", "comparator not found", site(w, c))
 					continue
 				}
-				ok, desc := w.lessEndsInKeyCompare(less)
+				ok, desc := w.comparatorTable(less).strictTotalOrder()
 				r.Check(ok, "D-3", tn+".Less", "the comparator's last key is a full-width byte comparison of the element's unique key: "+desc, "the comparator leaves ties to the sort algorithm (no final full-width comparison of a unique key): "+desc, fnSite(w, less), site(w, c))
 			default:
 				r.Undecided("D-3", w.FName(fn)+":sort."+f.Name(), "sort."+f.Name()+" on the consensus path is not analysed", site(w, c))
